@@ -120,3 +120,39 @@ package signature
 //@   tags C03
 //@   pure
 //@   ensures[C03] result == t.reader
+
+// Composite type descriptions: a list reads a count then its element reader; a map reads a count
+// then (key reader, value reader) pairs, in that order; a tuple / struct reads one reader per
+// member, in declaration order. reader_of(t) is the (abstract) reader of a member type.
+//@ spec readerRef(t Type) int
+//@ interface (t Type) Reader() (result TypeReader)
+//@   trusted
+//@   pure
+//@   ensures result != nil && ref(result) == readerRef(t)
+//@ func (l *ListType) Reader() (result TypeReader)
+//@   tags C03
+//@   requires l.value != nil
+//@   modifies everything
+//@   ensures[C03] typeis(result, varReader) && ref(unbox(result, varReader).reader) == readerRef(l.value)
+//@ func (m *MapType) Reader() (result TypeReader)
+//@   tags C03
+//@   requires m.key != nil && m.value != nil
+//@   modifies everything
+//@   ensures[C03] typeis(result, varReader) && typeis(unbox(result, varReader).reader, tupleReader) && len(unbox(unbox(result, varReader).reader, tupleReader)) == 2
+//@   ensures[C03] ref(unbox(unbox(result, varReader).reader, tupleReader)[0].reader) == readerRef(m.key) && ref(unbox(unbox(result, varReader).reader, tupleReader)[1].reader) == readerRef(m.value)
+//@ func (t *TupleType) Reader() (result TypeReader)
+//@   tags C03
+//@   requires forall k int {t.Members[k]} :: 0 <= k && k < len(t.Members) ==> t.Members[k].Type != nil
+//@   modifies everything
+//@   ensures[C03] typeis(result, tupleReader) && len(unbox(result, tupleReader)) == len(old(t.Members))
+//@   loop 1:
+//@     invariant len(readers) == len(old(t.Members)) && fresh(readers) && t.Members == old(t.Members)
+//@     invariant forall k int {old(t.Members)[k]} :: 0 <= k && k < len(old(t.Members)) ==> old(t.Members)[k].Type != nil
+//@ func (s *StructType) Reader() (result TypeReader)
+//@   tags C03
+//@   requires forall k int {s.Members[k]} :: 0 <= k && k < len(s.Members) ==> s.Members[k].Type != nil
+//@   modifies everything
+//@   ensures[C03] typeis(result, tupleReader) && len(unbox(result, tupleReader)) == len(old(s.Members))
+//@   loop 1:
+//@     invariant len(readers) == len(old(s.Members)) && fresh(readers) && s.Members == old(s.Members)
+//@     invariant forall k int {old(s.Members)[k]} :: 0 <= k && k < len(old(s.Members)) ==> old(s.Members)[k].Type != nil
